@@ -5,6 +5,7 @@ import (
 	"os"
 	"path/filepath"
 	"strings"
+	"syscall"
 
 	"github.com/pdfcpu/pdfcpu/pkg/api"
 	"github.com/pdfcpu/pdfcpu/pkg/font"
@@ -17,7 +18,7 @@ func init() {
 	core.Register(&core.Check{
 		ID:    "C07",
 		Level: "fault_enumeration",
-		Rule: "the persistence trace (create, write, fsync(file), fsync(dir), rename, unlink, mkdir with resolved absolute paths) of every real install driver is recorded; crash point p ranges over every prefix of the trace; at each p every subset of the directory-entry operations not yet covered by an fsync of their directory may have reached the disk, and file data is durable only up to the file's last fsync; " +
+		Rule: "the persistence trace (create, write, fsync(file), fsync(dir), rename, unlink, mkdir with resolved absolute paths) of every real install driver is recorded; crash point p ranges over every prefix of the trace; at each p every subset of the directory-entry operations not yet covered by an fsync of their directory may have reached the disk, and file data is durable only up to the file's last fsync; one deviation: for every driver every single hooked file system call is made to fail in turn (EIO) and, whenever the install still reports success (the failed step is one pdfcpu only warns about), that run's trace is put through the same crash enumeration, an acknowledged install having to survive every crash after its return; " +
 			"non-trivial = a crash state in which at least one directory operation is pending",
 		Assume: []string{"persistence model: data durable only after fsync(file); a directory entry operation durable only after fsync(that directory); pending entry operations of one directory may persist in any subset, applied in order; a rename inside one directory is atomic; nothing synced is lost",
 			"trace events are the os-level calls pdfcpu makes (fsync = File.Sync on the file or directory descriptor)"},
@@ -41,10 +42,27 @@ func absClean(p string) string {
 
 // recordPersistence runs f with a recorder on the vos shim.
 func recordPersistence(f func() error) ([]pev, error) {
+	tr, _, _, err := recordPersistenceFault(f, -1)
+	return tr, err
+}
+
+// recordPersistenceFault: as recordPersistence, but the failAt-th hooked call (0-based, -1 = none) fails with
+// EIO. Returns the trace, the number of hooked calls and a description of the failed call.
+func recordPersistenceFault(f func() error, failAt int) ([]pev, int, string, error) {
 	var tr []pev
+	nev := 0
+	failed := ""
 	vos.SkipRealSync = true
 	vos.ResetSeq()
-	vos.Before = func(ev *vos.Event) error { return nil }
+	vos.Before = func(ev *vos.Event) error {
+		i := nev
+		nev++
+		if i == failAt {
+			failed = ev.Kind + " " + absClean(ev.Path)
+			return syscall.EIO
+		}
+		return nil
+	}
 	vos.After = func(ev *vos.Event, err error) {
 		if err != nil {
 			return
@@ -80,25 +98,25 @@ func recordPersistence(f func() error) ([]pev, error) {
 	var err error
 	pv, _ := core.Try(func() { err = f() })
 	if pv != nil {
-		return tr, fmt.Errorf("panic: %v", pv)
+		return tr, nev, failed, fmt.Errorf("panic: %v", pv)
 	}
-	return tr, err
+	return tr, nev, failed, err
 }
 
 type pinode struct {
-	id       int
-	old      bool // pre-existing complete durable file
-	written  int
-	synced   int // bytes covered by the last fsync
-	final    int // total bytes ever written in the whole trace
-	label    string
+	id      int
+	old     bool // pre-existing complete durable file
+	written int
+	synced  int // bytes covered by the last fsync
+	final   int // total bytes ever written in the whole trace
+	label   string
 }
 
 type dirop struct {
-	link  bool
-	name  string
-	ino   *pinode
-	pair  int // id of the atomic rename this op belongs to (same-directory rename), 0 = none
+	link bool
+	name string
+	ino  *pinode
+	pair int // id of the atomic rename this op belongs to (same-directory rename), 0 = none
 }
 
 // c07model replays the trace prefix [0,p) and enumerates crash states of fontDir.
@@ -293,11 +311,9 @@ func runC07(r *core.R) {
 	}
 	cwd, _ := os.Getwd()
 	defer os.Chdir(cwd)
-	for di, d := range drivers {
-		dir := filepath.Join(base, fmt.Sprintf("d%d", di))
+	prep := func(d c07drv, dir string) bool {
+		os.RemoveAll(dir)
 		os.MkdirAll(dir, 0o755)
-		drv := c06driver{setup: nil}
-		_ = drv
 		// setup (unhooked)
 		os.MkdirAll(filepath.Join(dir, "fonts"), 0o755)
 		os.MkdirAll(filepath.Join(dir, "elsewhere"), 0o755)
@@ -309,15 +325,12 @@ func runC07(r *core.R) {
 			src := map[string]string{A: "a.ttf", B: "b.ttf"}[p]
 			if err := api.InstallFonts([]string{filepath.Join(dir, src)}); err != nil {
 				r.HarnessError("setup %s: %v", d.name, err)
+				return false
 			}
 		}
-		os.Chdir(filepath.Join(dir, "elsewhere")) // the process working directory is never the font directory
-		tr, err := recordPersistence(func() error { return d.run(dir) })
-		os.Chdir(cwd)
-		if err != nil {
-			r.HarnessError("%s: install failed: %v", d.name, err)
-			continue
-		}
+		return true
+	}
+	analyse := func(di int, d c07drv, dir string, tr []pev) {
 		fontDir := filepath.Join(dir, "fonts")
 		r.Count("traces", 1)
 		r.Count("trace_events", int64(len(tr)))
@@ -394,8 +407,45 @@ func runC07(r *core.R) {
 			r.Count("crash_points", 1)
 			_ = states
 		}
-		if di%3 == 0 {
+		if di%3 == 0 && !strings.Contains(d.name, "tolerated fault") {
 			r.Sample(map[string]any{"driver": d.name, "trace": traceStrings(dir, tr)})
+		}
+	}
+	for di, d := range drivers {
+		dir := filepath.Join(base, fmt.Sprintf("d%d", di))
+		if !prep(d, dir) {
+			continue
+		}
+		os.Chdir(filepath.Join(dir, "elsewhere")) // the process working directory is never the font directory
+		tr, nev, _, err := recordPersistenceFault(func() error { return d.run(dir) }, -1)
+		os.Chdir(cwd)
+		if err != nil {
+			r.HarnessError("%s: install failed: %v", d.name, err)
+			continue
+		}
+		analyse(di, d, dir, tr)
+		// one deviation: every single hooked call fails in turn. An install that still reports success (the failed
+		// step is one pdfcpu only warns about) has acknowledged the fonts: its trace is judged like any other.
+		for k := 0; k < nev; k++ {
+			if r.Expired() {
+				r.Cut("internal deadline in tolerated-fault variants")
+				return
+			}
+			if !prep(d, dir) {
+				break
+			}
+			os.Chdir(filepath.Join(dir, "elsewhere"))
+			ftr, _, failed, ferr := recordPersistenceFault(func() error { return d.run(dir) }, k)
+			os.Chdir(cwd)
+			r.Count("single_fault_runs", 1)
+			if ferr != nil || failed == "" {
+				continue // the install reported the failure: rollback is C06's subject
+			}
+			r.Count("single_fault_runs_reporting_success", 1)
+			fd := d
+			kp := strings.SplitN(failed, " ", 2)
+			fd.name = fmt.Sprintf("%s + tolerated fault at call %d (%s %s)", d.name, k+1, kp[0], rel(dir, kp[1]))
+			analyse(di, fd, dir, ftr)
 		}
 	}
 }
